@@ -3,6 +3,9 @@
 // ARP requests / probes / other ARP packets are executed in real time on the real handler (one
 // handler and session per scenario, scenarios in parallel); the ordered log of API calls and ARP
 // frames written must be accepted by the Lean ARP hunt machine and satisfy the Go-side oracle.
+// The recording connection can hold one forged frame inside WriteTo (steps a<m>:<F|Y>, h): StopHunt is
+// then called while the frame is in flight – it must not return before the frame is on the wire, and
+// no forged frame may follow the restoring request.
 package c13
 
 import (
@@ -11,6 +14,7 @@ import (
 	"fmt"
 	"net"
 	"net/netip"
+	"sort"
 	"strconv"
 	"strings"
 	"sync"
@@ -44,10 +48,130 @@ type frameRec struct {
 }
 
 type tlog struct {
-	mu     sync.Mutex
-	t0     time.Time
-	evs    []event
-	frames []frameRec
+	mu      sync.Mutex
+	t0      time.Time
+	evs     []event
+	frames  []frameRec
+	pending map[int]time.Time // API calls (StartHunt, StopHunt, Close) that have not returned yet
+}
+
+// callBegin / callEnd log the call / return of an API call and keep it in `pending` in between.
+func (l *tlog) callBegin(k int, tok string) (int, time.Duration) {
+	l.mu.Lock()
+	defer l.mu.Unlock()
+	if l.pending == nil {
+		l.pending = map[int]time.Time{}
+	}
+	l.pending[k] = time.Now()
+	at := time.Since(l.t0)
+	l.evs = append(l.evs, event{tok, at})
+	return len(l.evs) - 1, at
+}
+
+func (l *tlog) callEnd(k int, tok string) (int, time.Duration) {
+	l.mu.Lock()
+	defer l.mu.Unlock()
+	delete(l.pending, k)
+	at := time.Since(l.t0)
+	l.evs = append(l.evs, event{tok, at})
+	return len(l.evs) - 1, at
+}
+
+// blockedCall: some API call has been waiting for this long (it waits for the handler mutex).
+func (l *tlog) blockedCall(d time.Duration) bool {
+	l.mu.Lock()
+	defer l.mu.Unlock()
+	for _, t := range l.pending {
+		if time.Since(t) >= d {
+			return true
+		}
+	}
+	return false
+}
+
+// restoredSince: a restoring request to dst was logged at or after event index idx.
+func (l *tlog) restoredSince(dst []byte, idx int) bool {
+	l.mu.Lock()
+	defer l.mu.Unlock()
+	for _, f := range l.frames {
+		if f.kind == 'T' && f.idx >= idx && string(f.dst) == string(dst) {
+			return true
+		}
+	}
+	return false
+}
+
+// gate holds one forged frame inside WriteTo (a slow link): the frame is on the wire, and logged, when
+// WriteTo returns.  The held frame is let go
+//   - as soon as a restoring request to the same MAC has been written meanwhile (only code that writes its
+//     forged frames outside the handler's critical section gets there: the forged frame then follows the
+//     restoring request), or
+//   - when an API call has been waiting for callWait (code that writes inside the critical section: StopHunt
+//     waits for the frame), or
+//   - after maxHold, whatever the scenario does.
+type gate struct {
+	mu    sync.Mutex
+	kind  byte   // 'F' forged announcement, 'Y' forged reply; 0: not armed
+	mac   []byte // destination MAC
+	held  chan struct{}
+	force chan struct{}
+}
+
+const (
+	callWait = 800 * time.Millisecond
+	maxHold  = 9 * time.Second
+)
+
+func newGate() *gate { return &gate{held: make(chan struct{}, 1), force: make(chan struct{})} }
+
+func (g *gate) arm(kind byte, mac []byte) {
+	g.mu.Lock()
+	g.kind, g.mac = kind, append([]byte{}, mac...)
+	g.mu.Unlock()
+}
+
+func (g *gate) release() {
+	g.mu.Lock()
+	g.kind = 0
+	select {
+	case <-g.force:
+	default:
+		close(g.force)
+	}
+	g.mu.Unlock()
+}
+
+func (g *gate) hold(l *tlog, kind byte, dst []byte) {
+	g.mu.Lock()
+	if g.kind == 0 || g.kind != kind || string(g.mac) != string(dst) {
+		g.mu.Unlock()
+		return
+	}
+	g.kind = 0
+	force := g.force
+	g.mu.Unlock()
+	l.mu.Lock()
+	from := len(l.evs)
+	l.mu.Unlock()
+	select {
+	case g.held <- struct{}{}:
+	default:
+	}
+	deadline := time.After(maxHold)
+	tick := time.NewTicker(10 * time.Millisecond)
+	defer tick.Stop()
+	for {
+		select {
+		case <-force:
+			return
+		case <-deadline:
+			return
+		case <-tick.C:
+			if l.restoredSince(dst, from) || l.blockedCall(callWait) {
+				return
+			}
+		}
+	}
 }
 
 func (l *tlog) add(tok string) (int, time.Duration) {
@@ -60,6 +184,7 @@ func (l *tlog) add(tok string) (int, time.Duration) {
 
 type lconn struct {
 	log    *tlog
+	gate   *gate
 	closed chan struct{}
 	once   sync.Once
 }
@@ -87,6 +212,9 @@ func (c *lconn) WriteTo(b []byte, addr net.Addr) (int, error) {
 		}
 		if kind != 0 {
 			l := c.log
+			if c.gate != nil && (kind == 'F' || kind == 'Y') {
+				c.gate.hold(l, kind, dst)
+			}
 			l.mu.Lock()
 			at := time.Since(l.t0)
 			l.frames = append(l.frames, frameRec{kind: kind, dst: dst, ip: append([]byte{}, sip...), at: at, idx: len(l.evs)})
@@ -154,9 +282,13 @@ const tail = 7800 * time.Millisecond
 //	            StartHunt used (host changed address) or be the address of another hunted MAC
 //	q<m>:<r>:<e> ARP request whose sender hardware address is MAC m, asking for the router (r=1) or another
 //	            address, received in a frame whose Ethernet source is MAC e (default m; e != m: relayed by a bridge)
+//	a<m>:<F|Y>  arm the gate: the next forged announcement (F) / forged reply (Y) to MAC m is held inside WriteTo
+//	h           wait (at most 8 s) until a frame is held; the following steps run while it is in flight
+//	&<step>     run the step in the background (a ProcessPacket whose reply is held does not return)
 func runTrace(scn string) (evs []event, frames []frameRec, ops []*apiOp) {
 	l := &tlog{t0: time.Now()}
-	s, err := packet.Config{Conn: &lconn{log: l, closed: make(chan struct{})}, NICInfo: sess.DefaultNIC()}.NewSession("")
+	g := newGate()
+	s, err := packet.Config{Conn: &lconn{log: l, gate: g, closed: make(chan struct{})}, NICInfo: sess.DefaultNIC()}.NewSession("")
 	if err != nil {
 		panic(err)
 	}
@@ -165,6 +297,13 @@ func runTrace(scn string) (evs []event, frames []frameRec, ops []*apiOp) {
 		panic(err)
 	}
 	n := 0
+	var opsMu sync.Mutex
+	var bg sync.WaitGroup
+	addOp := func(o *apiOp) {
+		opsMu.Lock()
+		ops = append(ops, o)
+		opsMu.Unlock()
+	}
 	process := func(fr []byte) {
 		ndpgen.Quietly(func() {
 			f, err := s.Parse(fr)
@@ -173,22 +312,29 @@ func runTrace(scn string) (evs []event, frames []frameRec, ops []*apiOp) {
 			}
 		})
 	}
-	for _, st := range strings.Split(scn, ",") {
-		if st == "" {
-			continue
-		}
+	step := func(st string, k int) {
 		op, arg := st[0], st[1:]
 		f := strings.Split(arg, ":")
-		k := n
 		switch op {
 		case 'w':
 			ms, _ := strconv.Atoi(arg)
 			time.Sleep(time.Duration(ms) * time.Millisecond)
+		case 'a':
+			if len(f) != 2 || len(f[1]) != 1 {
+				return
+			}
+			m, _ := strconv.Atoi(f[0])
+			g.arm(f[1][0], macOf(m))
+		case 'h':
+			select {
+			case <-g.held:
+			case <-time.After(8 * time.Second):
+				g.release() // nothing of that kind was sent: disarm
+			}
 		case 's':
 			if len(f) != 2 {
-				continue
+				return
 			}
-			n++
 			m, _ := strconv.Atoi(f[0])
 			o := &apiOp{kind: 'S', m: m, valid: f[1] != "x"}
 			a := packet.Addr{MAC: macOf(m), IP: netip.MustParseAddr("fe80::1")}
@@ -200,40 +346,37 @@ func runTrace(scn string) (evs []event, frames []frameRec, ops []*apiOp) {
 			if o.valid {
 				v = "1"
 			}
-			o.callIdx, o.callAt = l.add(fmt.Sprintf("Sc%d:%s:%s", k, hx(a.MAC), v))
+			o.callIdx, o.callAt = l.callBegin(k, fmt.Sprintf("Sc%d:%s:%s", k, hx(a.MAC), v))
 			_, err := h.StartHunt(a)
 			o.res = "o"
 			if err != nil {
 				o.res = "e"
 			}
+			o.retIdx, o.retAt = l.callEnd(k, fmt.Sprintf("Sr%d:%s", k, o.res))
 			o.huntLenAfter, o.huntAfter = huntDump(h)
-			o.retIdx, o.retAt = l.add(fmt.Sprintf("Sr%d:%s", k, o.res))
-			ops = append(ops, o)
+			addOp(o)
 		case 'x':
-			n++
 			m, _ := strconv.Atoi(f[0])
 			o := &apiOp{kind: 'X', m: m, ipk: m}
 			if len(f) == 2 {
 				o.ipk, _ = strconv.Atoi(f[1])
 			}
 			ip := ip4Of(o.ipk).As4()
-			o.callIdx, o.callAt = l.add(fmt.Sprintf("Xc%d:%s:%s", k, hx(macOf(m)), hx(ip[:])))
+			o.callIdx, o.callAt = l.callBegin(k, fmt.Sprintf("Xc%d:%s:%s", k, hx(macOf(m)), hx(ip[:])))
 			h.StopHunt(packet.Addr{MAC: macOf(m), IP: ip4Of(o.ipk)})
+			o.retIdx, o.retAt = l.callEnd(k, fmt.Sprintf("Xr%d", k))
 			o.huntLenAfter, o.huntAfter = huntDump(h)
-			o.retIdx, o.retAt = l.add(fmt.Sprintf("Xr%d", k))
-			ops = append(ops, o)
+			addOp(o)
 		case 'c':
-			n++
 			o := &apiOp{kind: 'C'}
-			o.callIdx, o.callAt = l.add(fmt.Sprintf("Cc%d", k))
+			o.callIdx, o.callAt = l.callBegin(k, fmt.Sprintf("Cc%d", k))
 			h.Close()
-			o.retIdx, o.retAt = l.add(fmt.Sprintf("Cr%d", k))
-			ops = append(ops, o)
+			o.retIdx, o.retAt = l.callEnd(k, fmt.Sprintf("Cr%d", k))
+			addOp(o)
 		case 'q':
 			if len(f) != 2 && len(f) != 3 {
-				continue
+				return
 			}
-			n++
 			m, _ := strconv.Atoi(f[0])
 			o := &apiOp{kind: 'Q', m: m, toRouter: f[1] == "1", esrc: m}
 			if len(f) == 3 {
@@ -246,12 +389,11 @@ func runTrace(scn string) (evs []event, frames []frameRec, ops []*apiOp) {
 			o.callIdx, o.callAt = l.add(fmt.Sprintf("Qc%d:%s:%s:%s", k, hx(macOf(o.esrc)), hx(macOf(m)), f[1]))
 			process(arpFrameVia(macOf(o.esrc), 1, macOf(m), ip4Of(m), make([]byte, 6), tip))
 			o.retIdx, o.retAt = l.add(fmt.Sprintf("Qr%d", k))
-			ops = append(ops, o)
+			addOp(o)
 		case 'b':
 			if len(f) != 3 || len(f[1]) != 1 || len(f[2]) != 1 {
-				continue
+				return
 			}
-			n++
 			m, _ := strconv.Atoi(f[0])
 			o := &apiOp{kind: 'B', m: m, offer: f[1][0], tipIn: f[2] == "l"}
 			o.tip = netip.AddrFrom4([4]byte{192, 168, 0, 77})
@@ -280,9 +422,8 @@ func runTrace(scn string) (evs []event, frames []frameRec, ops []*apiOp) {
 			o.callIdx, o.callAt = l.add(fmt.Sprintf("Bc%d:%s:%s:%s:%s", k, hx(macOf(m)), off, hx(t4[:]), in))
 			process(arpFrame(1, macOf(m), netip.AddrFrom4([4]byte{}), make([]byte, 6), o.tip))
 			o.retIdx, o.retAt = l.add(fmt.Sprintf("Br%d", k))
-			ops = append(ops, o)
+			addOp(o)
 		case 'o':
-			n++
 			m, _ := strconv.Atoi(arg)
 			o := &apiOp{kind: 'O', m: m}
 			o.callIdx, o.callAt = l.add(fmt.Sprintf("Oc%d", k))
@@ -292,10 +433,34 @@ func runTrace(scn string) (evs []event, frames []frameRec, ops []*apiOp) {
 				process(arpFrame(1, macOf(m), ip4Of(m), []byte{0xff, 0xff, 0xff, 0xff, 0xff, 0xff}, ip4Of(m))) // announcement
 			}
 			o.retIdx, o.retAt = l.add(fmt.Sprintf("Or%d", k))
-			ops = append(ops, o)
+			addOp(o)
 		}
 	}
+	for _, st := range strings.Split(scn, ",") {
+		if st == "" {
+			continue
+		}
+		if st == "&" {
+			continue
+		}
+		k := n
+		if strings.IndexByte("sxcqbo", strings.TrimPrefix(st, "&")[0]) >= 0 {
+			n++
+		}
+		if st[0] == '&' {
+			bg.Add(1)
+			go func(st string) {
+				defer bg.Done()
+				step(st, k)
+			}(st[1:])
+			continue
+		}
+		step(st, k)
+	}
 	time.Sleep(tail)
+	g.release()
+	bg.Wait()
+	sort.SliceStable(ops, func(i, j int) bool { return ops[i].callIdx < ops[j].callIdx })
 	l.mu.Lock()
 	evs = append(evs, l.evs...)
 	frames = append(frames, l.frames...)
@@ -387,6 +552,32 @@ func traceOracle(evs []event, frames []frameRec, ops []*apiOp) (string, string) 
 		}
 		if from >= 0 {
 			ivs[m] = append(ivs[m], ival{a: from, b: end + time.Hour})
+		}
+	}
+	// after the restoring packet no further forged frame unless the host is hunted again (log order: a
+	// frame is logged when WriteTo returns; "hunted again" = a valid StartHunt that returned after the
+	// restoring request and was called before the forged frame)
+	for _, t := range frames {
+		if t.kind != 'T' {
+			continue
+		}
+		for _, f := range frames {
+			if (f.kind != 'F' && f.kind != 'Y') || f.idx <= t.idx || string(f.dst) != string(t.dst) {
+				continue
+			}
+			again := false
+			for _, o := range ops {
+				if o.kind == 'S' && o.valid && o.m == int(t.dst[5]) && o.retIdx > t.idx && o.callIdx < f.idx {
+					again = true
+				}
+			}
+			if !again {
+				what := "announcement"
+				if f.kind == 'Y' {
+					what = "reply"
+				}
+				return fmt.Sprintf("forged ARP %s to %s written %v after the restoring request to it although it was not hunted again", what, hx(f.dst), f.at-t.at), ""
+			}
 		}
 	}
 	for _, f := range frames {
@@ -619,6 +810,10 @@ func genScenario(c *core.Ctx) string {
 			st = append(st, fmt.Sprintf("o%d", r.Intn(nm+1)))
 		case x < 10 && i > 2:
 			st = append(st, "c")
+		case x == 10 && i > 0 && r.Intn(2) == 0:
+			// a hunted (or not) host asks for the router; its reply is held while StopHunt / StartHunt / Close is called
+			call := []string{fmt.Sprintf("x%d", m), fmt.Sprintf("x%d", m), fmt.Sprintf("s%d:%d", m, m), "c"}[r.Intn(4)]
+			st = append(st, fmt.Sprintf("a%d:Y", m), fmt.Sprintf("&q%d:1", m), "h", call)
 		default:
 			st = append(st, fmt.Sprintf("w%d", []int{5, 100, 900, 3000, 6300}[r.Intn(5)]))
 		}
@@ -628,7 +823,7 @@ func genScenario(c *core.Ctx) string {
 
 // Gen is the C13 correspondence run.
 func Gen(c *core.Ctx) {
-	c.Res.Rule = "arp.trace: real-time scenarios (StartHunt incl. invalid addresses and MACs sharing one IPv4, StopHunt incl. with another address than StartHunt used or the address of another hunted MAC, Close over up to 3 MACs, received requests for the router / another address from hunted and non-hunted ARP senders incl. frames relayed by a bridge (Ethernet source differs from the ARP sender, both directions), hunt-list content dumped after every call, probes with no / equal / different DHCP offer for in-LAN and foreign addresses, replies and announcements, pauses up to 6.3 s, 6.6 s tail) run in parallel, one handler each; the ordered log must be accepted by the Lean ARP hunt machine (6 s ticker as a lower bound between forged frames of one loop); the oracle checks every forged / restoring / reject frame, API results, list size, the undo sequence after StopHunt within one cycle, Close, and the period"
+	c.Res.Rule = "arp.trace: real-time scenarios (StartHunt incl. invalid addresses and MACs sharing one IPv4, StopHunt incl. with another address than StartHunt used or the address of another hunted MAC, Close over up to 3 MACs, received requests for the router / another address from hunted and non-hunted ARP senders incl. frames relayed by a bridge (Ethernet source differs from the ARP sender, both directions), hunt-list content dumped after every call, probes with no / equal / different DHCP offer for in-LAN and foreign addresses, replies and announcements, pauses up to 6.3 s, 7.8 s tail; StopHunt / StartHunt / Close called while a forged reply or announcement is held inside the connection's WriteTo) run in parallel, one handler each; the ordered log must be accepted by the Lean ARP hunt machine (6 s ticker as a lower bound between forged frames of one loop); the oracle checks every forged / restoring / reject frame, API results, list size, the undo sequence after StopHunt within one cycle, no forged frame after the restoring request unless hunted again, Close, and the period"
 	lines := c.CorpusLines()
 	fixed := []string{
 		"s0:0,w300,x0", "s0:0,s0:0,s0:1,w6300,x0", "s0:0,s1:0,w300,x0,w300", "s0:0,s1:1,q0:1,q1:0,q2:1,x1,q1:1",
@@ -639,6 +834,10 @@ func Gen(c *core.Ctx) {
 		// StopHunt with another address than StartHunt used; with the address of another hunted MAC; shared IPv4
 		"s0:0,w200,x0:5,w300,q0:1", "s0:3,w200,x0,w300,q0:1", "s0:0,s1:1,w200,x1:0,w300,q0:1,q1:1",
 		"s0:0,s1:0,s2:2,w200,x1:0,q0:1,q1:1,w300,x0:2,q2:1",
+		// StopHunt called while a forged frame is held inside WriteTo: the immediate reply (ProcessPacket in the
+		// background), the announcement of a second loop that survived a quick StopHunt / StartHunt
+		"s0:0,w500,a0:Y,&q0:1,h,x0,w300,q0:1", "s0:0,w200,x0,w3000,s0:0,w1000,a0:F,h,x0",
+		"s0:0,s1:1,w300,a1:Y,&q1:1,h,x1,q0:1,w200,x0", "s0:0,w4000,a0:F,h,x0,w100,s0:0,w300,x0",
 	}
 	ns := c.Scale(28, 1200)
 	scns := []string{}
